@@ -301,7 +301,7 @@ lazy_static! {
         ].into_iter()
     );
 
-    static ref TWO_CHAR_OPERATORS: HashSet<char> = HashSet::from_iter(vec!['<', '>', '!', '=', '-'].into_iter());
+    static ref TWO_CHAR_OPERATORS: HashSet<(char, char)> = HashSet::from_iter(vec![('<', '='), ('>', '='), ('!', '='), ('-', '-')].into_iter());
 }
 
 pub fn tokenize_simple(text: &str) -> Result<Vec<Token>, ParserError> {
@@ -349,7 +349,11 @@ pub fn tokenize(text: &str) -> Result<Vec<ParserToken>, ParserError> {
     let mut current_str: Option<String> = None;
     let mut is_escaped = false;
     let mut is_comment = false;
+    let mut previous_was_operator = false;
     while let Some(current) = state.next_char() {
+        let adjacent_to_operator = previous_was_operator;
+        previous_was_operator = false;
+
         if current == '\n' {
             state.line += 1;
             state.column = 0;
@@ -492,26 +496,33 @@ pub fn tokenize(text: &str) -> Result<Vec<ParserToken>, ParserError> {
         } else if current.is_whitespace() {
             // Skip
         } else {
-            //If the previous token is an operator and the current one also is, upgrade to a two-op char
+            //If the previous character was an operator and forms a two-char operator with the current one, upgrade it
             let mut is_dual = false;
-            if let Some(last) = state.tokens.last().map(|t| &t.token) {
-                match last {
-                    Token::Operator(Operator::Single('=')) if current == '>' => {
-                        state.tokens.last_mut().unwrap().token = Token::RightArrow;
-                        is_dual = true;
-                    },
-                    Token::Operator(Operator::Single(operator)) if TWO_CHAR_OPERATORS.contains(operator) => {
-                        state.tokens.last_mut().unwrap().token = Token::Operator(Operator::Dual(*operator, current));
-                        is_dual = true;
+            if adjacent_to_operator {
+                if let Some(last) = state.tokens.last().map(|t| &t.token) {
+                    match last {
+                        Token::Operator(Operator::Single('=')) if current == '>' => {
+                            state.tokens.last_mut().unwrap().token = Token::RightArrow;
+                            is_dual = true;
+                        },
+                        Token::Operator(Operator::Single(operator)) if TWO_CHAR_OPERATORS.contains(&(*operator, current)) => {
+                            state.tokens.last_mut().unwrap().token = Token::Operator(Operator::Dual(*operator, current));
+                            is_dual = true;
+                        }
+                        _ => {}
                     }
-                    _ => {}
                 }
             }
 
             if !is_dual {
                 state.add(Token::Operator(Operator::Single(current)));
+                previous_was_operator = true;
             }
         }
+    }
+
+    if let Some(Token::Operator(Operator::Dual('-', '-'))) = state.tokens.last().map(|t| &t.token) {
+        state.tokens.remove(state.tokens.len() - 1);
     }
 
     state.add(Token::End);
